@@ -25,7 +25,7 @@ NOTES = {
  'C03': "the defect must be in what the library's Verify reports (par2 package), not in the command-line front end.",
  'C04': "the defect must be observable through Verify / Repair of a PAR1 set, not only through the staged Encoder API.",
  'C05': "the defect must show in the bytes Create writes for given inputs, not in how the command line or working directory resolves path spellings (another property covers that).",
- 'C06': "stay inside the quantifier: recovery-block exponents of at most a few thousand (never above 65534).",
+ 'C06': "stay inside the quantifier: recovery-block exponents of at most a few thousand (never above 65534); and the trigger must be a LAYOUT a conformant writer can produce - stray files that are empty, truncated or garbage are damage (another property, which accepts an error), so a change that merely turns such a file into an error does not break this property.",
  'C08': "if the prescribed trigger kind cannot apply to pure arithmetic, an operand-only defect in a function or operand region not attacked before is acceptable.",
  'C13': "the trigger must be one of the corruptions the statement names (bit flips, truncation, garbage, emptied or deleted files, an interrupted Create) applied to an index, recovery or data file.",
  'C15': "a change that only READS outside the directory does not break this property; it must create, modify or delete something outside.",
